@@ -30,7 +30,7 @@ KANI_FLAGS = [
 # quick tier: number of harnesses per property (stratified sample chosen with VERIF_SEED)
 QUICK_N = {"C01": 20, "C04": 12, "C05": 12, "C08": 6, "C09": 12, "C10": 16, "C12": 8, "C13": 10, "C14": 8,
            "C15": 12, "C16": 40, "C17": 40, "C19": 6, "C20": 30, "C02": 6}
-TIMEOUT = {"quick": 240, "thorough": 900}
+TIMEOUT = {"quick": 300, "thorough": 900}
 NATIVE_TIMEOUT = 300
 
 ENV = dict(os.environ)
@@ -78,9 +78,10 @@ def match_known(known, prop, h, chk):
 
 # quick tier: CPU budget in estimated core-seconds (gen.py attaches a static cost estimate to every generated
 # harness; hand-written ones default to 30) - the sample is stratified by (module, kind) and chosen with VERIF_SEED
-QUICK_BUDGET = {"C01": 1500, "C04": 1500, "C05": 1500, "C09": 1600, "C10": 1600, "C12": 2000, "C13": 2000, "C14": 1500,
+QUICK_BUDGET = {"C01": 1500, "C04": 1500, "C05": 1500, "C09": 1200, "C10": 1300, "C12": 2000, "C13": 2000, "C14": 1500,
                 "C15": 1500, "C16": 3000, "C17": 2500, "C20": 900, "C02": 3000}
-QUICK_MAX_COST = 130
+# measured on this machine under 14-way contention; the reference environment was up to ~2x slower
+QUICK_MAX_COST = 75
 
 
 def select(meta, prop, tier, seed, known):
@@ -90,9 +91,11 @@ def select(meta, prop, tier, seed, known):
     rnd = random.Random(seed * 1000003 + int(prop[1:]))
     budget = QUICK_BUDGET.get(prop, 1500)
     cost = lambda h: h.get("cost", 30)
+    # the small hand-written families run with little contention and were stable in three reference runs
+    max_cost = 130 if prop in ("C02", "C12", "C13", "C16", "C17") else QUICK_MAX_COST
     strata = {}
     for h in hs:
-        if cost(h) > QUICK_MAX_COST:
+        if cost(h) > max_cost:
             continue
         strata.setdefault((h.get("module", ""), h.get("kind", "")), []).append(h)
     for v in strata.values():
@@ -117,7 +120,7 @@ def select(meta, prop, tier, seed, known):
     for h in hs:
         for k in kf:
             if ("instruction" in k and k["instruction"] == h.get("instruction")) or ("harness" in k and h["harness"].endswith(k["harness"])):
-                if h not in picked and cost(h) <= QUICK_MAX_COST:
+                if h not in picked and cost(h) <= max_cost:
                     picked.append(h)
                     total += cost(h)
     i = 0
